@@ -24,6 +24,8 @@ pub struct RunOut {
     pub deadlocked: bool,
     /// the CPU-time limit was exceeded (busy hang); implies timed_out
     pub cpu_exceeded: bool,
+    /// gdb backtrace taken when the run was stopped as a hang (empty when not requested or gdb is unavailable)
+    pub hang_backtrace: String,
 }
 
 impl RunOut {
@@ -50,11 +52,14 @@ pub struct RunSpec<'a> {
     pub signal_after: Option<(Duration, i32)>,
     /// CPU time (all threads) after which the run counts as a busy hang; load-independent, unlike the wall clock
     pub cpu_limit: Option<Duration>,
+    /// when the CPU limit or the watchdog fires: take a backtrace of all threads with gdb before killing the process
+    /// (used to attribute a hang to its call site)
+    pub backtrace_on_hang: bool,
 }
 
 impl<'a> Default for RunSpec<'a> {
     fn default() -> Self {
-        RunSpec { args: vec![], stdin: None, env: vec![], cwd: None, tmpdir: None, timeout: Duration::from_secs(60), signal_after: None, cpu_limit: None }
+        RunSpec { args: vec![], stdin: None, env: vec![], cwd: None, tmpdir: None, timeout: Duration::from_secs(60), signal_after: None, cpu_limit: None, backtrace_on_hang: false }
     }
 }
 
@@ -79,6 +84,16 @@ fn cpu_ticks(pid: u32) -> Option<(u64, bool)> {
         total += f[11].parse::<u64>().ok()? + f[12].parse::<u64>().ok()?;
     }
     Some((total, all_sleep))
+}
+
+fn gdb_backtrace(pid: u32) -> String {
+    Command::new("gdb")
+        .args(["-p", &pid.to_string(), "-batch", "-ex", "thread apply all bt 40"])
+        .stdin(Stdio::null())
+        .stderr(Stdio::null())
+        .output()
+        .map(|o| String::from_utf8_lossy(&o.stdout).to_string())
+        .unwrap_or_default()
 }
 
 pub fn run_s4(spec: RunSpec) -> RunOut {
@@ -142,6 +157,7 @@ pub fn run_bin(bin: &Path, spec: RunSpec) -> RunOut {
     let mut deadlocked = false;
     let mut signalled = false;
     let mut cpu_exceeded = false;
+    let mut hang_backtrace = String::new();
     let mut next_cpu_check_ms = 1000u64;
     let status;
     let mut sleep_us = 200u64;
@@ -171,6 +187,9 @@ pub fn run_bin(bin: &Path, spec: RunSpec) -> RunOut {
                     if ticks * 10 > lim.as_millis() as u64 {
                         timed_out = true;
                         cpu_exceeded = true;
+                        if spec.backtrace_on_hang {
+                            hang_backtrace = gdb_backtrace(pid);
+                        }
                         let _ = child.kill();
                         status = child.wait().unwrap();
                         break;
@@ -188,6 +207,9 @@ pub fn run_bin(bin: &Path, spec: RunSpec) -> RunOut {
                 if ta == tb && sleeping {
                     deadlocked = true;
                 }
+            }
+            if spec.backtrace_on_hang && !deadlocked {
+                hang_backtrace = gdb_backtrace(pid);
             }
             let _ = child.kill();
             status = child.wait().unwrap();
@@ -209,7 +231,7 @@ pub fn run_bin(bin: &Path, spec: RunSpec) -> RunOut {
     let stdout = th_o.join().unwrap_or_default();
     let stderr = th_e.join().unwrap_or_default();
     use std::os::unix::process::ExitStatusExt;
-    RunOut { status: status.code(), signal: status.signal(), stdout, stderr, wall, timed_out, deadlocked, cpu_exceeded }
+    RunOut { status: status.code(), signal: status.signal(), stdout, stderr, wall, timed_out, deadlocked, cpu_exceeded, hang_backtrace }
 }
 
 /// A private scratch directory removed on drop.
